@@ -1,44 +1,109 @@
-// c01.go — C01: threshold signing by a qualified quorum yields a publicly valid signature.
+// c01.go — C01: threshold signing by a qualified quorum yields a publicly valid signature; every party
+// or aggregator that obtains an output obtains the same signature.
 //
-// Lines (rhs `ok`; the Lean driver decides each relation in model curve arithmetic):
-//   C01 ecdsa <proto> <curve> <pk> <msg> <digest> <m> <r> <s> <nonces> <pkshares> => ok
-//        m = digest as scalar (library DigestToScalar; an explicit argument until the hash models land);
-//        driver: ECDSA equation x((m/s)•G + (r/s)•pk) = r; r = x(Σ Rᵢ) mod n; Σ pkshareᵢ = pk.
-//   C01 schnorr <variant> <curve> <pk> <msg> <e> <R> <s> <nonces> => ok
-//        driver: vanilla: s•G = R + e•pk and R = Σ Rᵢ; bip340: s•G = R + e•P′ with P′ the even-y
-//        lift of pk, R has even y and R = ±Σ Rᵢ.
+// Generation (see c01_cover.go): per protocol a pairwise covering array over every constructor option /
+// variant / API the library offers, crossed with the access-structure family, the quorum kind, the key
+// generation and the session setup:
+//   lindell22   variant {bip340, mina, vanilla × response sign × challenge byte order} × API {rounds,
+//               runner} × NIZK compiler {FiatShamir, Fischlin, RandomisedFischlin} × keygen × quorum ×
+//               session × family;  every run is aggregated by EVERY aggregation path: for each quorum
+//               member the plain Aggregator built from that member's public material and (round-by-round
+//               API, where the cosigner exists) that member's CosigningAggregator (identifiable abort);
+//   vanilla     the remaining schnorr.NewScheme arguments: curve {k256, p256, ed25519, pallas} × hash
+//               {sha256, sha512, sha3-256, blake2b-256} × shouldNegateNonce {nil, parity} × sign × order;
+//   dkls23      multiplier {bbot, softspoken} × API × curve {k256, p256} × hash × keygen × quorum ×
+//               session × family; aggregated in ID order, reverse order and two random orders;
+//   boldyreva   key size {short, long} × rogue-key mode {basic, message-augmentation, POP} × keygen ×
+//               quorum × family; aggregated with every quorum member's public material;
+//   lindell17   one run (3072-bit Paillier keys are the library's minimum: tens of seconds).
+// Access structures: threshold, unanimity, CNF (non-ideal), hierarchical, boolean expressions (incl.
+// repeated holders ⇒ several MSP rows per holder); IDs consecutive / sparse / > 2^32 / near 2^64 /
+// unsorted; quorums minimal, all holders, random non-minimal.
+//
+// Lines (rhs `ok`; the Lean driver decides each relation in model curve arithmetic and recomputes the
+// message digest / Fiat–Shamir challenge from the message with its own hash models):
+//   C01 ecdsa <proto> <curve> <hash> <pk> <msg> <digest> <m> <r> <s> <nonces> <pkshares> => ok
+//        driver: m' = bits2int(H(msg)) mod n with the model hash; ECDSA equation
+//        x((m'/s)•G + (r/s)•pk) = r; r = x(Σ Rᵢ) mod n; Σ pkshareᵢ = pk.
+//   C01 schnorr <variant> <curve> <pk> <msg> <e> <R> <s> <nonces> <partialRs> <partialSs> => ok
+//        variant = bip340 | mina-<net> | vanilla:<hash>:<neg>:<le>;  driver: e' recomputed from
+//        (R, pk, msg) (BIP-340 tagged hash; H(R‖P‖m), byte-reversed when le; Mina/Poseidon: e taken
+//        from the line); vanilla: s•G = R ± e'•pk, R = Σ Rᵢ; bip340/mina: s•G = R + e'•P′, R even,
+//        R = ±Σ Rᵢ; Σ partial sᵢ = s and Σ partial Rᵢ = R.
+//   C01 bls <keycurve> <sigcurve> <alg> <sk> <pk> <H(m)> <sig> <H(pk)|-> <pop|-> => ok
+//        sk = the secret reconstructed from all shards; driver: sk•G = pk, sig = sk•H(m)
+//        (equivalent to the pairing equation), pop = sk•H_pop(pk).
 //   C01 addconv <curve> <rows> <cols> <labels> <M> <V> <pk> <quorum> => ok
 //        driver: model solveLeft coefficients c for the quorum's rows: Σ c_k • (M_k·V) = pk.
-// Go-side oracles (!VIOLATION): honest run not ok; aggregators disagree; the library's single-party
-// verifier or crypto/ecdsa rejects.
+// Go-side oracles (!VIOLATION): honest run not ok; ANY aggregator path rejecting the honest partial
+// signatures or producing a different signature; the library's single-party verifier or crypto/ecdsa
+// rejects.
 
 package main
 
 import (
 	nativeEcdsa "crypto/ecdsa"
 	"crypto/sha256"
+	"crypto/sha3"
 	"crypto/sha512"
 	"encoding/hex"
 	"fmt"
 	"hash"
 	"io"
+	"math/big"
+	"os"
+	"slices"
+	"strconv"
 	"strings"
+	"time"
+
+	"golang.org/x/crypto/blake2b"
 
 	"github.com/bronlabs/bron-crypto/pkg/base/algebra"
 	"github.com/bronlabs/bron-crypto/pkg/base/curves"
+	"github.com/bronlabs/bron-crypto/pkg/base/curves/pairable/bls12381"
+	"github.com/bronlabs/bron-crypto/pkg/base/curves/pasta"
+	ds "github.com/bronlabs/bron-crypto/pkg/base/datastructures"
+	"github.com/bronlabs/bron-crypto/pkg/base/datastructures/hashmap"
 	"github.com/bronlabs/bron-crypto/pkg/hashing"
 	"github.com/bronlabs/bron-crypto/pkg/mpc"
 	"github.com/bronlabs/bron-crypto/pkg/mpc/session"
 	"github.com/bronlabs/bron-crypto/pkg/mpc/sharing/accessstructures"
+	"github.com/bronlabs/bron-crypto/pkg/mpc/sharing/scheme/kw"
+	"github.com/bronlabs/bron-crypto/pkg/mpc/sharing/vss/feldman"
+	"github.com/bronlabs/bron-crypto/pkg/mpc/signatures/bls/boldyreva02"
+	blskeygen "github.com/bronlabs/bron-crypto/pkg/mpc/signatures/bls/boldyreva02/keygen"
+	blssigning "github.com/bronlabs/bron-crypto/pkg/mpc/signatures/bls/boldyreva02/signing"
+	"github.com/bronlabs/bron-crypto/pkg/mpc/signatures/ecdsa/dkls23"
+	mpcschnorr "github.com/bronlabs/bron-crypto/pkg/mpc/signatures/schnorr"
+	"github.com/bronlabs/bron-crypto/pkg/proofs/sigma/compiler"
+	"github.com/bronlabs/bron-crypto/pkg/proofs/sigma/compiler/fiatshamir"
+	"github.com/bronlabs/bron-crypto/pkg/proofs/sigma/compiler/fischlin"
+	"github.com/bronlabs/bron-crypto/pkg/proofs/sigma/compiler/randfischlin"
 	"github.com/bronlabs/bron-crypto/pkg/signatures/bls"
 	"github.com/bronlabs/bron-crypto/pkg/signatures/ecdsa"
+	"github.com/bronlabs/bron-crypto/pkg/signatures/schnorrlike"
 	"github.com/bronlabs/bron-crypto/pkg/signatures/schnorrlike/bip340"
+	"github.com/bronlabs/bron-crypto/pkg/signatures/schnorrlike/mina"
 	vanilla "github.com/bronlabs/bron-crypto/pkg/signatures/schnorrlike/schnorr"
 )
 
 func init() { register("C01", runC01) }
 
 const c01Prop = "C01"
+
+var c01Hashes = map[string]func() hash.Hash{
+	"sha256":      sha256.New,
+	"sha512":      sha512.New,
+	"sha3-256":    func() hash.Hash { return sha3.New256() },
+	"blake2b-256": func() hash.Hash { h, _ := blake2b.New256(nil); return h },
+}
+
+var c01Compilers = map[string]compiler.Name{
+	"fiatshamir":   fiatshamir.Name,
+	"fischlin":     fischlin.Name,
+	"randfischlin": randfischlin.Name,
+}
 
 // c01Key is a generated key: base shards of every holder.
 type c01Key[P curves.Point[P, F, S], F algebra.FiniteFieldElement[F], S algebra.PrimeFieldElement[S]] struct {
@@ -48,7 +113,7 @@ type c01Key[P curves.Point[P, F, S], F algebra.FiniteFieldElement[F], S algebra.
 	shards map[ID]*mpc.BaseShard[P, S]
 }
 
-// c01Keygen produces base shards with the requested key generation; "" result means refused/failed
+// c01Keygen produces base shards with the requested key generation; nil result means refused/failed
 // (already reported).
 func c01Keygen[P curves.Point[P, F, S], F algebra.FiniteFieldElement[F], S algebra.PrimeFieldElement[S]](o *jobOut, seed int64, stream uint64, g c03Group[P, F, S], keygen, spec string) *c01Key[P, F, S] {
 	ac, err := parseAccess(spec)
@@ -100,7 +165,7 @@ func c01Keygen[P curves.Point[P, F, S], F algebra.FiniteFieldElement[F], S algeb
 }
 
 // c01Quorum picks a qualified quorum: minimal (mode 0), the full holder set (1) or a random
-// non-minimal qualified set (2).
+// non-minimal qualified set (2). (Also used by the C06 stream: keep signature and Rng consumption.)
 func c01Quorum(r *Rng, ac accessstructures.Monotone, mode int) []ID {
 	mins := minimalQualifiedSets(ac)
 	if len(mins) == 0 {
@@ -127,6 +192,39 @@ func c01Quorum(r *Rng, ac accessstructures.Monotone, mode int) []ID {
 	}
 }
 
+// c01QuorumKind picks a qualified quorum: a minimal one ("min"), the full holder set ("all") or a random
+// non-minimal qualified set ("rand": a minimal set plus at least one further holder when there is one).
+func c01QuorumKind(r *Rng, ac accessstructures.Monotone, mode string) []ID {
+	mins := minimalQualifiedSets(ac)
+	if len(mins) == 0 {
+		return nil
+	}
+	base := mins[r.IntN(len(mins))]
+	switch mode {
+	case "min":
+		return base
+	case "all":
+		return accessIDs(ac)
+	default:
+		q := append([]ID{}, base...)
+		var rest []ID
+		for _, id := range accessIDs(ac) {
+			if !slices.Contains(base, id) {
+				rest = append(rest, id)
+			}
+		}
+		if len(rest) > 0 {
+			forced := r.IntN(len(rest))
+			for k, id := range rest {
+				if k == forced || r.IntN(2) == 0 {
+					q = append(q, id)
+				}
+			}
+		}
+		return sortedIDs(q)
+	}
+}
+
 func c01Contexts(o *jobOut, seed int64, stream uint64, q []ID, real bool) map[ID]*session.Context {
 	if real {
 		n, ctxs := runSession(q, partyRngs(seed, stream*64+20, q), nil)
@@ -146,16 +244,48 @@ func c01Message(r *Rng) []byte {
 	return b
 }
 
-func c01AddConv[P curves.Point[P, F, S], F algebra.FiniteFieldElement[F], S algebra.PrimeFieldElement[S]](o *jobOut, g c03Group[P, F, S], key *c01Key[P, F, S], q []ID) {
-	v := shardView(key.shards[q[0]])
+func c01AddConv[P curves.Point[P, F, S], F algebra.FiniteFieldElement[F], S algebra.PrimeFieldElement[S]](o *jobOut, curve string, ac accessstructures.Monotone, shard *mpc.BaseShard[P, S], q []ID) {
+	v := shardView(shard)
 	cols := 0
 	if len(v.Rows) > 0 {
 		cols = len(v.Rows[0])
 	}
-	if len(v.Labels) > len(accessIDs(key.ac)) {
+	if len(v.Labels) > len(accessIDs(ac)) {
 		o.Count("msp.non-ideal")
+		for _, id := range q {
+			rows := 0
+			for _, l := range v.Labels {
+				if l == id {
+					rows++
+				}
+			}
+			if rows > 1 {
+				o.Count("msp.multi-row-holder-in-quorum")
+				break
+			}
+		}
 	}
-	o.Emit(c01Prop, fmt.Sprintf("addconv %s %d %d %s %s %s %s %s", g.name, len(v.Rows), cols, idsStr(v.Labels), matHex(v.Rows), pointsStr(v.V), pointStr(v.PK), idsStr(q)), "ok")
+	// measured: does the library's reconstruction vector for this quorum use several rows of one holder?
+	_ = safely(func() string {
+		for _, id := range q {
+			cs, err := shard.MSP().ReconstructionCoefficients(id, q...)
+			if err != nil {
+				return "err"
+			}
+			nz := 0
+			for _, c := range cs {
+				if !c.IsZero() {
+					nz++
+				}
+			}
+			if nz > 1 {
+				o.Count("msp.quorum-member-uses-several-rows")
+				return "ok"
+			}
+		}
+		return "ok"
+	})
+	o.Emit(c01Prop, fmt.Sprintf("addconv %s %d %d %s %s %s %s %s", curve, len(v.Rows), cols, idsStr(v.Labels), matHex(v.Rows), pointsStr(v.V), pointStr(v.PK), idsStr(q)), "ok")
 }
 
 func pointMapStr[P curves.Point[P, F, S], F algebra.FiniteFieldElement[F], S algebra.PrimeFieldElement[S]](m map[ID]P) string {
@@ -166,29 +296,186 @@ func pointMapStr[P curves.Point[P, F, S], F algebra.FiniteFieldElement[F], S alg
 	return pointsStr(ps)
 }
 
+// c01Params: the options shared by all protocols.
 type c01Params struct {
-	keygen, spec string
-	qmode        int
-	runner       bool
-	realSession  bool
+	row         c01Row
+	family      string
+	keygen      string
+	qmode       string
+	runner      bool
+	realSession bool
+	nMin, nMax  int
+	quick       bool
+	spec        string // fixed spec ("" = generate from the family)
+	fixedQuorum []ID   // with a fixed spec: the signing quorum (nil = by qmode)
 }
 
-// c01ECDSA: DKLs23 over a curve with a prime base field.
+func c01CommonParams(row c01Row, nMin, nMax int, quick bool) c01Params {
+	p := c01Params{row: row, family: row.get("family"), keygen: row.get("keygen"), qmode: row.get("quorum"), nMin: nMin, nMax: nMax, quick: quick}
+	for _, d := range row.dims {
+		switch d.name {
+		case "api":
+			p.runner = row.get("api") == "runner"
+		case "session":
+			p.realSession = row.get("session") == "real"
+		}
+	}
+	return p
+}
+
+// c01IDClass classifies an ID assignment for the statistics.
+func c01IDClass(ids []ID) string {
+	s := sortedIDs(ids)
+	switch {
+	case uint64(s[len(s)-1]) >= 1<<63:
+		return "near-2^64"
+	case uint64(s[len(s)-1]) > 1<<32:
+		return "above-2^32"
+	case uint64(s[len(s)-1]) == uint64(len(s)):
+		return "consecutive"
+	case uint64(s[len(s)-1]) <= 64:
+		return "sparse-below-65"
+	default:
+		return "sparse"
+	}
+}
+
+// c01Setup: access structure (generated from the family unless fixed), key generation, quorum. A
+// structure that the library refuses or whose only quorums have a single member is regenerated (up to
+// four attempts) so that the planned option combination is still exercised.
+func c01Setup[P curves.Point[P, F, S], F algebra.FiniteFieldElement[F], S algebra.PrimeFieldElement[S]](o *jobOut, seed int64, stream uint64, g c03Group[P, F, S], p c01Params) (*c01Key[P, F, S], []ID, *Rng) {
+	r := NewRng(seed, stream*64+4)
+	for attempt := range 4 {
+		spec := p.spec
+		if spec == "" {
+			n := p.nMin + r.IntN(p.nMax-p.nMin+1)
+			if p.qmode == "rand" {
+				n = p.nMax // room for a quorum strictly between a minimal one and all holders
+			}
+			if (p.family == "bool" || p.family == "hier") && n < 3 {
+				n = 3
+			}
+			// CNF holder IDs are not capped (cnf.InducedMSP handles IDs > 64 since /repo 31f4236; a panic
+			// there is still reported as cnf-id-above-64-panic); the quick tier only avoids structures with
+			// a powerless holder (open finding, reported by the thorough tier under cnf-powerless-holder)
+			spec = genSpec(r, p.family, n, false)
+			for p.quick && cnfPowerlessHolder(spec) {
+				spec = genSpec(r, p.family, n, false)
+			}
+		}
+		key := c01Keygen(o, seed, stream+uint64(attempt)*1_000_003, g, p.keygen, spec)
+		if key == nil {
+			if p.spec != "" {
+				return nil, nil, r
+			}
+			continue
+		}
+		q := c01QuorumKind(r, key.ac, p.qmode)
+		if p.fixedQuorum != nil {
+			q = sortedIDs(p.fixedQuorum)
+		}
+		if len(q) < 2 {
+			o.Note("quorum of one holder: regenerated " + spec)
+			o.Count("regenerated.single-holder-quorum")
+			if p.spec != "" {
+				return nil, nil, r
+			}
+			continue
+		}
+		return key, q, r
+	}
+	o.Count("skipped.no-usable-structure")
+	return nil, nil, r
+}
+
+func (p c01Params) countRun(o *jobOut, proto string, ac accessstructures.Monotone, spec, keygen string, q []ID) {
+	fam := strings.SplitN(spec, ":", 2)[0]
+	ids := specIDs(spec)
+	o.Count("sign." + proto)
+	o.Count("keygen." + keygen)
+	o.Count("family." + fam)
+	o.Count("family-x-proto." + fam + "." + proto)
+	o.Count(fmt.Sprintf("quorum.size=%d", len(q)))
+	minimal := false
+	for _, m := range minimalQualifiedSets(ac) {
+		minimal = minimal || slices.Equal(sortedIDs(m), sortedIDs(q))
+	}
+	switch {
+	case minimal && len(q) == len(accessIDs(ac)):
+		o.Count("quorum.kind=minimal-and-all-holders")
+	case minimal:
+		o.Count("quorum.kind=minimal")
+	case len(q) == len(accessIDs(ac)):
+		o.Count("quorum.kind=non-minimal-all-holders")
+	default:
+		o.Count("quorum.kind=non-minimal-proper-subset")
+	}
+	o.Count("ids." + c01IDClass(ids))
+	if !slices.IsSorted(ids) {
+		o.Count("ids.unsorted-in-spec")
+	}
+	if p.runner {
+		o.Count("api.runner")
+	} else {
+		o.Count("api.rounds")
+	}
+	if p.row.array != "" {
+		p.row.countCovered(o)
+	}
+}
+
+// specIDs lists the IDs of a spec in the order in which they are written.
+func specIDs(spec string) []ID {
+	var out []ID
+	cur := uint64(0)
+	in := false
+	body := spec
+	if i := strings.Index(spec, ":"); i >= 0 {
+		body = spec[i+1:]
+	}
+	seen := map[ID]bool{}
+	flush := func() {
+		if in && !seen[ID(cur)] {
+			seen[ID(cur)] = true
+			out = append(out, ID(cur))
+		}
+		in, cur = false, 0
+	}
+	for i := 0; i < len(body); i++ {
+		ch := body[i]
+		switch {
+		case ch >= '0' && ch <= '9':
+			// "th2(" / "th:2:" carry thresholds, not IDs: skip digits that directly follow "th" or precede ':'
+			if !in && i >= 2 && body[i-2:i] == "th" {
+				for i < len(body) && body[i] >= '0' && body[i] <= '9' {
+					i++
+				}
+				i--
+				continue
+			}
+			in = true
+			cur = cur*10 + uint64(ch-'0')
+		case ch == ':':
+			in, cur = false, 0 // a threshold
+		default:
+			flush()
+		}
+	}
+	flush()
+	return out
+}
+
+// ---------------------------------------------------------------------------------------------
+// DKLs23
+
 func c01ECDSA[P curves.Point[P, B, S], B algebra.PrimeFieldElement[B], S algebra.PrimeFieldElement[S]](o *jobOut, seed int64, stream uint64, g c03Group[P, B, S], curve ecdsa.Curve[P, B, S], variant string, hname string, p c01Params) {
-	tag := fmt.Sprintf("proto=dkls23-%s runner=%v curve=%s hash=%s keygen=%s spec=%s seed=%d/%d", variant, p.runner, g.name, hname, p.keygen, p.spec, seed, stream)
-	key := c01Keygen(o, seed, stream, g, p.keygen, p.spec)
+	tag := fmt.Sprintf("proto=dkls23-%s runner=%v curve=%s hash=%s keygen=%s seed=%d/%d", variant, p.runner, g.name, hname, p.keygen, seed, stream)
+	key, q, r := c01Setup(o, seed, stream, g, p)
 	if key == nil {
 		return
 	}
-	r := NewRng(seed, stream*64+4)
-	q := c01Quorum(r, key.ac, p.qmode)
-	if len(q) < 2 {
-		o.Note("quorum of one holder: skipped " + tag)
-		o.Count("skipped.single-holder-quorum")
-		return
-	}
-	hf := map[string]func() hash.Hash{"sha256": sha256.New, "sha512": sha512.New}[hname]
-	suite, err := ecdsa.NewSuite(curve, hf)
+	tag += " spec=" + key.spec
+	suite, err := ecdsa.NewSuite(curve, c01Hashes[hname])
 	if err != nil {
 		o.Violation(c01Prop, "suite "+classify(err)+" "+tag)
 		return
@@ -210,20 +497,47 @@ func c01ECDSA[P curves.Point[P, B, S], B algebra.PrimeFieldElement[B], S algebra
 		o.Violation(c01Prop, fmt.Sprintf("honest-signing-failed %s status=%s agg=%s %s", tag, res.Net.StatusStr(), res.AggStatus, res.Net.statusSummary()))
 		return
 	}
-	o.Count("sign.dkls23-" + variant)
-	o.Count("keygen." + p.keygen)
-	o.Count("family." + strings.SplitN(p.spec, ":", 2)[0])
-	o.Count(fmt.Sprintf("quorum.%d", len(q)))
+	p.countRun(o, "dkls23-"+variant, key.ac, key.spec, key.keygen, q)
 	if res.SigAlt == nil || !res.Sig.Equal(res.SigAlt) {
-		o.Violation(c01Prop, "aggregators-disagree "+tag)
+		o.Violation(c01Prop, "aggregators-disagree order=reverse "+tag)
 	}
 	pk, _ := ecdsa.NewPublicKey(res.PK)
+	// further aggregators: the same partial signatures in random orders
+	for k := range 2 {
+		ids := sortedKeys(res.Partials)
+		r.Shuffle(len(ids), func(i, j int) { ids[i], ids[j] = ids[j], ids[i] })
+		vr := safely(func() string {
+			ps := make([]*dkls23.PartialSignature[P, B, S], 0, len(ids))
+			for _, id := range ids {
+				ps = append(ps, res.Partials[id])
+			}
+			sig, err := dkls23.Aggregate(suite, pk, msg, ps...)
+			if err != nil {
+				return "aggregator-rejected-honest-partials class=" + classify(err)
+			}
+			if !sig.Equal(res.Sig) {
+				return "aggregators-disagree"
+			}
+			return "ok"
+		})
+		o.Count("agg.dkls23.order-shuffled")
+		if vr != "ok" {
+			o.Violation(c01Prop, fmt.Sprintf("%s order=shuffle%d:%s %s", vr, k, idsStr(ids), tag))
+		}
+	}
+	c01ECDSAReport(o, g, suite, hname, "dkls23-"+variant, tag, res.PK, msg, res.Sig, pointMapStr(res.NoncePoints), pointMapStr(res.PkShares))
+	c01AddConv(o, g.name, key.ac, key.shards[q[0]], q)
+}
+
+// c01ECDSAReport: library verifier, crypto/ecdsa, and the driver line.
+func c01ECDSAReport[P curves.Point[P, B, S], B algebra.PrimeFieldElement[B], S algebra.PrimeFieldElement[S]](o *jobOut, g c03Group[P, B, S], suite *ecdsa.Suite[P, B, S], hname, proto, tag string, pkv P, msg []byte, sig *ecdsa.Signature[S], nonces, pkShares string) {
+	pk, _ := ecdsa.NewPublicKey(pkv)
 	if vr := safely(func() string {
 		vf, err := ecdsa.NewVerifier(suite)
 		if err != nil {
 			return "verifier-" + classify(err)
 		}
-		if err := vf.Verify(res.Sig, pk, msg); err != nil {
+		if err := vf.Verify(sig, pk, msg); err != nil {
 			return "library-verifier-rejects"
 		}
 		return "ok"
@@ -240,10 +554,11 @@ func c01ECDSA[P curves.Point[P, B, S], B algebra.PrimeFieldElement[B], S algebra
 		if err != nil {
 			return "skip"
 		}
-		nr, ns := res.Sig.ToElliptic()
+		nr, ns := sig.ToElliptic()
 		if !nativeEcdsa.Verify(npk, digest, nr, ns) {
 			return "crypto/ecdsa-rejects"
 		}
+		o.Count("oracle.crypto/ecdsa")
 		return "ok"
 	}); vr != "ok" && vr != "skip" {
 		o.Violation(c01Prop, vr+" "+tag)
@@ -253,54 +568,111 @@ func c01ECDSA[P curves.Point[P, B, S], B algebra.PrimeFieldElement[B], S algebra
 		o.Violation(c01Prop, "digest-to-scalar "+tag)
 		return
 	}
-	o.Emit(c01Prop, fmt.Sprintf("ecdsa dkls23-%s %s %s %s %s %s %s %s %s %s", variant, g.name, pointStr(res.PK), hexBytes(msg), hex.EncodeToString(digest),
-		scalarHex(m), scalarHex(res.Sig.R()), scalarHex(res.Sig.S()), pointMapStr(res.NoncePoints), pointMapStr(res.PkShares)), "ok")
-	c01AddConv(o, g, key, q)
+	o.Emit(c01Prop, fmt.Sprintf("ecdsa %s %s %s %s %s %s %s %s %s %s %s", proto, g.name, hname, pointStr(pkv), hexBytes(msg), hex.EncodeToString(digest),
+		scalarHex(m), scalarHex(sig.R()), scalarHex(sig.S()), nonces, pkShares), "ok")
 }
 
-// c01Schnorr: Lindell22 with the vanilla or the BIP-340 flavour.
-func c01SchnorrVanilla[P curves.Point[P, F, S], F algebra.FiniteFieldElement[F], S algebra.PrimeFieldElement[S]](o *jobOut, seed int64, stream uint64, g c03Group[P, F, S], p c01Params) {
-	tag := fmt.Sprintf("proto=lindell22-vanilla runner=%v curve=%s keygen=%s spec=%s seed=%d/%d", p.runner, g.name, p.keygen, p.spec, seed, stream)
-	key := c01Keygen(o, seed, stream, g, p.keygen, p.spec)
+// ---------------------------------------------------------------------------------------------
+// Lindell17 (two-party ECDSA with Paillier): one run; the key material is not reproducible from the
+// seed (crypto/rand.Prime), the line carries everything the driver needs.
+
+func c01Lindell17(o *jobOut, seed int64, stream uint64) {
+	r := NewRng(seed, stream*64+4)
+	ids := genIDs(r, 3, 0)
+	spec := fmt.Sprintf("th:2:%s", idsStr(ids))
+	tag := fmt.Sprintf("proto=lindell17 curve=k256 hash=sha256 spec=%s seed=%d/%d", spec, seed, stream)
+	ac := mustAccess(spec)
+	shards, cls := runLindell17Deal(cK256, ac, 3072, NewRng(seed, stream*64+1))
+	if cls != "ok" {
+		o.Violation(c01Prop, "lindell17-deal "+cls+" "+tag)
+		return
+	}
+	suite, _ := ecdsa.NewSuite(cK256, sha256.New)
+	r.Shuffle(len(ids), func(i, j int) { ids[i], ids[j] = ids[j], ids[i] })
+	primary, secondary := ids[0], ids[1]
+	q := sortedIDs([]ID{primary, secondary})
+	msg := c01Message(r)
+	nic := []compiler.Name{fiatshamir.Name, fischlin.Name, randfischlin.Name}[r.IntN(3)]
+	res := runLindell17Sign(suite, shards, primary, secondary, dealerContexts(q, NewRng(seed, stream*64+3)), msg, partyRngs(seed, stream*64+30, q), nil, nic)
+	tag += fmt.Sprintf(" primary=%d secondary=%d nic=%s", primary, secondary, nic)
+	if !res.Net.OK() || res.Sig == nil {
+		o.Violation(c01Prop, fmt.Sprintf("honest-signing-failed %s status=%s %s", tag, res.Net.StatusStr(), res.Net.statusSummary()))
+		return
+	}
+	o.Count("sign.lindell17")
+	o.Count("family.th")
+	o.Count("family-x-proto.th.lindell17")
+	g := c03Group[*k256Point, *k256Base, *k256Scalar]{"k256", cK256}
+	c01ECDSAReport(o, g, suite, "sha256", "lindell17", tag, shards[primary].PublicKeyValue(), msg, res.Sig, "-", "-")
+	c01AddConv(o, "k256", ac, &shards[primary].BaseShard, q)
+}
+
+// ---------------------------------------------------------------------------------------------
+// Lindell22
+
+// c01Lindell22 runs one Lindell22 signing with the scheme built by mk and reports it.
+func c01Lindell22[
+	SCH mpcschnorr.MPCFriendlyScheme[VR, P, S, M, KG, SG, VF],
+	VR mpcschnorr.MPCFriendlyVariant[P, S, M],
+	P curves.Point[P, F, S], F algebra.FiniteFieldElement[F], S algebra.PrimeFieldElement[S], M schnorrlike.Message,
+	KG schnorrlike.KeyGenerator[P, S], SG schnorrlike.Signer[VR, P, S, M], VF schnorrlike.Verifier[VR, P, S, M],
+](o *jobOut, seed int64, stream uint64, g c03Group[P, F, S], variant string, mk func(io.Reader) (SCH, error), mkMsg func(*Rng) (M, []byte), nicName string, p c01Params) {
+	tag := fmt.Sprintf("proto=lindell22 variant=%s runner=%v nic=%s curve=%s keygen=%s seed=%d/%d", variant, p.runner, nicName, g.name, p.keygen, seed, stream)
+	key, q, r := c01Setup(o, seed, stream, g, p)
 	if key == nil {
 		return
 	}
-	r := NewRng(seed, stream*64+4)
-	q := c01Quorum(r, key.ac, p.qmode)
-	if len(q) < 2 {
-		o.Count("skipped.single-holder-quorum")
-		return
-	}
+	tag += " spec=" + key.spec
 	ctxs := c01Contexts(o, seed, stream, q, p.realSession)
 	if ctxs == nil {
 		return
 	}
-	msg := c01Message(r)
+	msg, msgBytes := mkMsg(r)
 	rngs := partyRngs(seed, stream*64+30, q)
-	mk := func(rng io.Reader) (*vanilla.Scheme[P, S], error) {
-		return vanilla.NewScheme(g.group, sha256.New, false, false, nil, rng)
-	}
+	nic := c01Compilers[nicName]
 	var res *SchnorrResult[P, S]
 	if p.runner {
-		res = runLindell22Runner(mk, key.shards, q, ctxs, msg, rngs, NewRng(seed, stream*64+5), defaultCompiler)
+		res = runLindell22Runner[SCH, VR, P, S, M, KG, SG, VF](mk, key.shards, q, ctxs, msg, rngs, NewRng(seed, stream*64+5), nic)
 	} else {
-		res = runLindell22(mk, key.shards, q, ctxs, msg, rngs, NewRng(seed, stream*64+5), nil, defaultCompiler)
+		res = runLindell22[SCH, VR, P, S, M, KG, SG, VF](mk, key.shards, q, ctxs, msg, rngs, NewRng(seed, stream*64+5), nil, nic)
 	}
-	c01SchnorrReport(o, g, key, q, "vanilla", tag, msg, res)
-}
-
-func c01SchnorrReport[P curves.Point[P, F, S], F algebra.FiniteFieldElement[F], S algebra.PrimeFieldElement[S]](o *jobOut, g c03Group[P, F, S], key *c01Key[P, F, S], q []ID, variant, tag string, msg []byte, res *SchnorrResult[P, S]) {
 	tag += " quorum=" + idsStr(q)
 	if !res.Net.OK() || res.Sig == nil {
 		o.Violation(c01Prop, fmt.Sprintf("honest-signing-failed %s status=%s agg=%s %s", tag, res.Net.StatusStr(), res.AggStatus, res.Net.statusSummary()))
 		return
 	}
-	o.Count("sign.lindell22-" + variant)
-	o.Count("keygen." + key.keygen)
-	o.Count("family." + strings.SplitN(key.spec, ":", 2)[0])
-	o.Count(fmt.Sprintf("quorum.%d", len(q)))
+	proto := "lindell22-" + strings.SplitN(variant, ":", 2)[0]
+	p.countRun(o, proto, key.ac, key.spec, key.keygen, q)
+	o.Count("lindell22.nic=" + nicName)
 	if res.SigAlt == nil || !res.Sig.Equal(res.SigAlt) {
-		o.Violation(c01Prop, "aggregators-disagree "+tag)
+		o.Violation(c01Prop, "aggregators-disagree second-plain-aggregator "+tag)
+	}
+	// every aggregation path over the same honest partial signatures: each must output a signature, and
+	// all outputs must be the same signature (canonical serialisation and in-memory value)
+	if len(res.Aggs) == 0 {
+		o.Violation(c01Prop, "no-aggregator-ran "+tag)
+	}
+	var ref *SchnorrAgg[P, S]
+	for i := range res.Aggs {
+		a := &res.Aggs[i]
+		o.Count("agg.lindell22." + a.Kind)
+		o.Count(fmt.Sprintf("agg.%s.%s", proto, a.Kind))
+		switch {
+		case a.Status != "ok" || a.Sig == nil:
+			o.Violation(c01Prop, fmt.Sprintf("aggregator-rejected-honest-partials proto=%s aggregator=%s class=%s party=%d %s", proto, a.Kind, a.Status, a.ID, tag))
+		case a.Bytes == nil:
+			o.Violation(c01Prop, fmt.Sprintf("signature-not-serialisable proto=%s aggregator=%s party=%d %s", proto, a.Kind, a.ID, tag))
+		case ref == nil:
+			ref = a
+			if !a.Sig.Equal(res.Sig) {
+				o.Violation(c01Prop, fmt.Sprintf("aggregators-disagree proto=%s aggregator=%s party=%d %s", proto, a.Kind, a.ID, tag))
+			}
+		case !slices.Equal(a.Bytes, ref.Bytes):
+			o.Violation(c01Prop, fmt.Sprintf("aggregators-disagree proto=%s aggregator=%s party=%d %s", proto, a.Kind, a.ID, tag))
+		case !a.Sig.Equal(ref.Sig):
+			// same serialisation, different in-memory value (e.g. the y parity of an x-only nonce point)
+			o.Violation(c01Prop, fmt.Sprintf("aggregators-disagree in-memory-only proto=%s aggregator=%s party=%d %s", proto, a.Kind, a.ID, tag))
+		}
 	}
 	if !res.VerifyOK {
 		o.Violation(c01Prop, "library-verifier-rejects "+tag)
@@ -309,165 +681,553 @@ func c01SchnorrReport[P curves.Point[P, F, S], F algebra.FiniteFieldElement[F], 
 	if len(res.NoncePoints) > 0 {
 		nonces = pointMapStr(res.NoncePoints)
 	}
-	o.Emit(c01Prop, fmt.Sprintf("schnorr %s %s %s %s %s %s %s %s", variant, g.name, pointStr(res.PK), hexBytes(msg), scalarHex(res.Sig.E), pointStr(res.Sig.R), scalarHex(res.Sig.S), nonces), "ok")
-	c01AddConv(o, g, key, q)
+	var pRs []P
+	var pSs []S
+	for _, id := range sortedKeys(res.Partials) {
+		pRs = append(pRs, res.Partials[id].Sig.R)
+		pSs = append(pSs, res.Partials[id].Sig.S)
+	}
+	o.Emit(c01Prop, fmt.Sprintf("schnorr %s %s %s %s %s %s %s %s %s %s", variant, g.name, pointStr(res.PK), hexBytes(msgBytes), scalarHex(res.Sig.E), pointStr(res.Sig.R), scalarHex(res.Sig.S), nonces, pointsStr(pRs), scalarsHex(pSs)), "ok")
+	c01AddConv(o, g.name, key.ac, key.shards[q[0]], q)
 }
 
-func c01SchnorrBIP340(o *jobOut, seed int64, stream uint64, p c01Params) {
+func c01BytesMsg(r *Rng) ([]byte, []byte) { m := c01Message(r); return m, m }
+
+// c01Vanilla: the configurable Schnorr scheme over group g.
+func c01Vanilla[P curves.Point[P, F, S], F algebra.FiniteFieldElement[F], S algebra.PrimeFieldElement[S]](o *jobOut, seed int64, stream uint64, g c03Group[P, F, S], hname string, neg, le, parity bool, nicName string, p c01Params) {
+	var negNonce func(P) bool
+	if parity {
+		negNonce = func(R P) bool {
+			// the coordinate whose sign negation flips: y on Weierstrass curves, x on Edwards curves
+			var v F
+			var err error
+			if g.name == "ed25519" {
+				v, err = R.AffineX()
+			} else {
+				v, err = R.AffineY()
+			}
+			if err != nil {
+				return false
+			}
+			b, ok := new(big.Int).SetString(feHex(v), 16)
+			return ok && b.Bit(0) == 1
+		}
+	}
+	b := func(x bool) int {
+		if x {
+			return 1
+		}
+		return 0
+	}
+	variant := fmt.Sprintf("vanilla:%s:%d:%d", hname, b(neg), b(le))
+	mk := func(rng io.Reader) (*vanilla.Scheme[P, S], error) {
+		return vanilla.NewScheme(g.group, c01Hashes[hname], neg, le, negNonce, rng)
+	}
+	o.Count(fmt.Sprintf("vanilla.neg=%v.le=%v", neg, le))
+	c01Lindell22(o, seed, stream, g, variant, mk, c01BytesMsg, nicName, p)
+}
+
+func c01VanillaOn(o *jobOut, seed int64, stream uint64, curve, hname string, neg, le, parity bool, nicName string, p c01Params) {
+	switch curve {
+	case "k256":
+		c01Vanilla(o, seed, stream, c03Group[*k256Point, *k256Base, *k256Scalar]{"k256", cK256}, hname, neg, le, parity, nicName, p)
+	case "p256":
+		c01Vanilla(o, seed, stream, c03Group[*p256Point, *p256Base, *p256Scalar]{"p256", cP256}, hname, neg, le, parity, nicName, p)
+	case "ed25519":
+		c01Vanilla(o, seed, stream, c03Group[*edPoint, *edBase, *edScalar]{"ed25519", cEd25519}, hname, neg, le, parity, nicName, p)
+	case "pallas":
+		c01Vanilla(o, seed, stream, c03Group[*pallasPoint, *pallasBase, *pallasScalar]{"pallas", cPallas}, hname, neg, le, parity, nicName, p)
+	default:
+		panic("c01VanillaOn: " + curve)
+	}
+}
+
+func c01BIP340(o *jobOut, seed int64, stream uint64, nicName string, p c01Params) {
 	g := c03Group[*k256Point, *k256Base, *k256Scalar]{"k256", cK256}
-	tag := fmt.Sprintf("proto=lindell22-bip340 runner=%v curve=k256 keygen=%s spec=%s seed=%d/%d", p.runner, p.keygen, p.spec, seed, stream)
-	key := c01Keygen(o, seed, stream, g, p.keygen, p.spec)
-	if key == nil {
-		return
-	}
-	r := NewRng(seed, stream*64+4)
-	q := c01Quorum(r, key.ac, p.qmode)
-	if len(q) < 2 {
-		o.Count("skipped.single-holder-quorum")
-		return
-	}
-	ctxs := c01Contexts(o, seed, stream, q, p.realSession)
-	if ctxs == nil {
-		return
-	}
-	msg := c01Message(r)
-	rngs := partyRngs(seed, stream*64+30, q)
 	mk := func(rng io.Reader) (*bip340.Scheme, error) { return bip340.NewScheme(rng) }
-	var res *SchnorrResult[*k256Point, *k256Scalar]
-	if p.runner {
-		res = runLindell22Runner(mk, key.shards, q, ctxs, msg, rngs, NewRng(seed, stream*64+5), defaultCompiler)
-	} else {
-		res = runLindell22(mk, key.shards, q, ctxs, msg, rngs, NewRng(seed, stream*64+5), nil, defaultCompiler)
-	}
-	c01SchnorrReport(o, g, key, q, "bip340", tag, msg, res)
+	c01Lindell22(o, seed, stream, g, "bip340", mk, c01BytesMsg, nicName, p)
 }
 
-func c01BLS(o *jobOut, seed int64, stream uint64, long bool, alg bls.RogueKeyPreventionAlgorithm, p c01Params) {
-	tag := fmt.Sprintf("proto=boldyreva long=%v alg=%v keygen=%s spec=%s seed=%d/%d", long, alg, p.keygen, p.spec, seed, stream)
-	r := NewRng(seed, stream*64+4)
-	msg := c01Message(r)
-	report := func(ok bool, status, agg string, same bool, q []ID) bool {
-		if !ok {
-			o.Violation(c01Prop, fmt.Sprintf("honest-signing-failed %s quorum=%s status=%s agg=%s", tag, idsStr(q), status, agg))
-			return false
+func c01Mina(o *jobOut, seed int64, stream uint64, nicName string, p c01Params) {
+	g := c03Group[*pallasPoint, *pallasBase, *pallasScalar]{"pallas", cPallas}
+	nid := []mina.NetworkID{mina.MainNet, mina.TestNet}[NewRng(seed, stream*64+7).IntN(2)]
+	mk := func(rng io.Reader) (*mina.Scheme, error) { return mina.NewRandomisedScheme(nid, rng) }
+	mkMsg := func(r *Rng) (*mina.Message, []byte) {
+		raw := c01Message(r)
+		m := new(mina.ROInput).Init()
+		m.AddString(hex.EncodeToString(raw))
+		if r.IntN(2) == 0 {
+			var fb [24]byte
+			_, _ = r.Read(fb[:])
+			if fe, err := pasta.NewPallasBaseField().FromBytesBEReduce(fb[:]); err == nil {
+				m.AddFields(fe)
+			}
 		}
-		if !same {
-			o.Violation(c01Prop, "aggregators-disagree "+tag)
-		}
-		o.Count("sign.boldyreva")
-		o.Count("keygen." + p.keygen)
-		o.Count("family." + strings.SplitN(p.spec, ":", 2)[0])
-		return true
+		return m, raw
 	}
-	if long {
-		g := c03Group[g2, g2f, bsc]{"bls12381g2", cBLSG2}
-		key := c01Keygen(o, seed, stream, g, p.keygen, p.spec)
-		if key == nil {
-			return
-		}
-		q := c01Quorum(r, key.ac, p.qmode)
-		ctxs := dealerContexts(append([]ID{}, q...), NewRng(seed, stream*64+3))
-		if len(q) < 2 {
-			o.Count("skipped.single-holder-quorum")
-			return
-		}
-		res := runBoldyrevaLong(key.shards, q, ctxs, msg, alg, nil)
-		if report(res.Net.OK() && res.Sig != nil, res.Net.StatusStr(), res.AggStatus, res.Sig != nil && res.SigAlt != nil && res.Sig.Equal(res.SigAlt), q) {
-			c01AddConv(o, g, key, q)
-		}
-		return
+	c01Lindell22(o, seed, stream, g, "mina-"+string(nid), mk, mkMsg, nicName, p)
+}
+
+// ---------------------------------------------------------------------------------------------
+// Boldyreva
+
+type c01BLSKit[PK curves.PairingFriendlyPoint[PK, PKF, SG, SGF, gt, bsc], PKF algebra.FiniteFieldElement[PKF], SG curves.PairingFriendlyPoint[SG, SGF, PK, PKF, gt, bsc], SGF algebra.FiniteFieldElement[SGF]] struct {
+	keyCurve, sigCurve string
+	variant            bls.Variant
+	group              c03Group[PK, PKF, bsc]
+	sigStr             func(SG) string
+	run                func(base map[ID]*mpc.BaseShard[PK, bsc], quorum []ID, ctxs map[ID]*session.Context, msg []byte, alg bls.RogueKeyPreventionAlgorithm, hook Hook) *BLSResult[PK, PKF, SG, SGF]
+	newShard           func(*mpc.BaseShard[PK, bsc]) (*boldyreva02.Shard[PK, PKF, SG, SGF, gt, bsc], error)
+	newAgg             func(*boldyreva02.PublicMaterial[PK, PKF, SG, SGF, gt, bsc], bls.RogueKeyPreventionAlgorithm) (*blssigning.Aggregator[PK, PKF, SG, SGF, gt, bsc], error)
+	newScheme          func(bls.RogueKeyPreventionAlgorithm) (*bls.Scheme[PK, PKF, SG, SGF, gt, bsc], error)
+}
+
+var c01BLSFamily = &bls12381.FamilyTrait{}
+
+func c01BLSShortKit() c01BLSKit[g1, g1f, g2, g2f] {
+	return c01BLSKit[g1, g1f, g2, g2f]{
+		keyCurve: "bls12381g1", sigCurve: "bls12381g2", variant: bls.ShortKey,
+		group:  c03Group[g1, g1f, bsc]{"bls12381g1", cBLSG1},
+		sigStr: func(p g2) string { return pointStr(p) },
+		run:    runBoldyrevaShort,
+		newShard: func(b *mpc.BaseShard[g1, bsc]) (*boldyreva02.Shard[g1, g1f, g2, g2f, gt, bsc], error) {
+			return blskeygen.NewShortKeyShard[g1, g1f, g2, g2f, gt, bsc](b)
+		},
+		newAgg: func(pm *boldyreva02.PublicMaterial[g1, g1f, g2, g2f, gt, bsc], alg bls.RogueKeyPreventionAlgorithm) (*blssigning.Aggregator[g1, g1f, g2, g2f, gt, bsc], error) {
+			return blssigning.NewShortKeyAggregator(c01BLSFamily, pm, alg)
+		},
+		newScheme: func(alg bls.RogueKeyPreventionAlgorithm) (*bls.Scheme[g1, g1f, g2, g2f, gt, bsc], error) {
+			return bls.NewShortKeyScheme(c01BLSFamily, alg)
+		},
 	}
-	g := c03Group[g1, g1f, bsc]{"bls12381g1", cBLSG1}
-	key := c01Keygen(o, seed, stream, g, p.keygen, p.spec)
+}
+
+func c01BLSLongKit() c01BLSKit[g2, g2f, g1, g1f] {
+	return c01BLSKit[g2, g2f, g1, g1f]{
+		keyCurve: "bls12381g2", sigCurve: "bls12381g1", variant: bls.LongKey,
+		group:  c03Group[g2, g2f, bsc]{"bls12381g2", cBLSG2},
+		sigStr: func(p g1) string { return pointStr(p) },
+		run:    runBoldyrevaLong,
+		newShard: func(b *mpc.BaseShard[g2, bsc]) (*boldyreva02.Shard[g2, g2f, g1, g1f, gt, bsc], error) {
+			return blskeygen.NewLongKeyShard[g2, g2f, g1, g1f, gt, bsc](b)
+		},
+		newAgg: func(pm *boldyreva02.PublicMaterial[g2, g2f, g1, g1f, gt, bsc], alg bls.RogueKeyPreventionAlgorithm) (*blssigning.Aggregator[g2, g2f, g1, g1f, gt, bsc], error) {
+			return blssigning.NewLongKeyAggregator(c01BLSFamily, pm, alg)
+		},
+		newScheme: func(alg bls.RogueKeyPreventionAlgorithm) (*bls.Scheme[g2, g2f, g1, g1f, gt, bsc], error) {
+			return bls.NewLongKeyScheme(c01BLSFamily, alg)
+		},
+	}
+}
+
+var c01BLSAlgs = map[string]bls.RogueKeyPreventionAlgorithm{"basic": bls.Basic, "aug": bls.MessageAugmentation, "pop": bls.POP}
+
+func c01BLS[PK curves.PairingFriendlyPoint[PK, PKF, SG, SGF, gt, bsc], PKF algebra.FiniteFieldElement[PKF], SG curves.PairingFriendlyPoint[SG, SGF, PK, PKF, gt, bsc], SGF algebra.FiniteFieldElement[SGF]](o *jobOut, seed int64, stream uint64, kit c01BLSKit[PK, PKF, SG, SGF], algName string, p c01Params) {
+	alg := c01BLSAlgs[algName]
+	g := kit.group
+	tag := fmt.Sprintf("proto=boldyreva key=%s alg=%s keygen=%s seed=%d/%d", kit.keyCurve, algName, p.keygen, seed, stream)
+	key, q, r := c01Setup(o, seed, stream, g, p)
 	if key == nil {
 		return
 	}
-	q := c01Quorum(r, key.ac, p.qmode)
-	if len(q) < 2 {
-		o.Count("skipped.single-holder-quorum")
+	tag += " spec=" + key.spec + " quorum=" + idsStr(q)
+	msg := c01Message(r)
+	ctxs := dealerContexts(slices.Clone(q), NewRng(seed, stream*64+3))
+	res := kit.run(key.shards, q, ctxs, msg, alg, nil)
+	if !res.Net.OK() || res.Sig == nil {
+		o.Violation(c01Prop, fmt.Sprintf("honest-signing-failed %s status=%s agg=%s", tag, res.Net.StatusStr(), res.AggStatus))
 		return
 	}
-	ctxs := dealerContexts(q, NewRng(seed, stream*64+3))
-	res := runBoldyrevaShort(key.shards, q, ctxs, msg, alg, nil)
-	if report(res.Net.OK() && res.Sig != nil, res.Net.StatusStr(), res.AggStatus, res.Sig != nil && res.SigAlt != nil && res.Sig.Equal(res.SigAlt), q) {
-		c01AddConv(o, g, key, q)
+	proto := "boldyreva-" + map[bls.Variant]string{bls.ShortKey: "short", bls.LongKey: "long"}[kit.variant] + "-" + algName
+	p.countRun(o, proto, key.ac, key.spec, key.keygen, q)
+	if res.SigAlt == nil || !res.Sig.Equal(res.SigAlt) {
+		o.Violation(c01Prop, "aggregators-disagree second-aggregator "+tag)
 	}
+	// an aggregator per quorum member, built from that member's own public material
+	var in ds.Map[ID, *boldyreva02.PartialSignature[SG, SGF, PK, PKF, gt, bsc]] = hashmap.NewComparableFromNativeLike(res.Partials).Freeze()
+	aggIDs := q
+	if p.quick && len(q) > 2 { // quick tier: the first and the last quorum member
+		aggIDs = []ID{q[0], q[len(q)-1]}
+	}
+	for _, id := range aggIDs {
+		vr := safely(func() string {
+			sh, err := kit.newShard(key.shards[id])
+			if err != nil {
+				return "shard-" + classify(err)
+			}
+			agg, err := kit.newAgg(sh.PublicKeyMaterial(), alg)
+			if err != nil {
+				return "new-" + classify(err)
+			}
+			sig, err := agg.Aggregate(in, msg)
+			if err != nil {
+				return "aggregator-rejected-honest-partials class=" + classify(err)
+			}
+			if !sig.Equal(res.Sig) {
+				return "aggregators-disagree"
+			}
+			return "ok"
+		})
+		o.Count("agg.boldyreva.per-party")
+		if vr != "ok" {
+			o.Violation(c01Prop, fmt.Sprintf("%s aggregator=party-%d %s", vr, id, tag))
+		}
+	}
+	// the library's single-party verifier under the group public key
+	scheme, err := kit.newScheme(alg)
+	if err != nil {
+		o.Violation(c01Prop, "bls-scheme "+classify(err)+" "+tag)
+		return
+	}
+	pk, err := bls.NewPublicKey(res.PK)
+	if err != nil {
+		o.Violation(c01Prop, "bls-public-key "+classify(err)+" "+tag)
+		return
+	}
+	if vr := safely(func() string {
+		vf, err := scheme.Verifier()
+		if err != nil {
+			return "verifier-" + classify(err)
+		}
+		if err := vf.Verify(res.Sig, pk, msg); err != nil {
+			return "library-verifier-rejects"
+		}
+		return "ok"
+	}); vr != "ok" {
+		o.Violation(c01Prop, vr+" "+tag)
+	}
+	// independent line: the secret reconstructed from all shards, the hashed message, the signature
+	fs, err := feldman.NewScheme(g.group, key.ac)
+	if err != nil {
+		o.Violation(c01Prop, "feldman.NewScheme "+classify(err)+" "+tag)
+		return
+	}
+	var shs []*kw.Share[bsc]
+	for _, id := range accessIDs(key.ac) {
+		shs = append(shs, key.shards[id].Share())
+	}
+	sec, err := fs.Reconstruct(shs...)
+	if err != nil {
+		o.Violation(c01Prop, "reconstruct-from-all-shards "+classify(err)+" "+tag)
+		return
+	}
+	sigGroup := scheme.SignatureSubGroup()
+	dst, err := scheme.CipherSuite().GetDst(alg, kit.variant)
+	if err != nil {
+		o.Violation(c01Prop, "bls-dst "+classify(err)+" "+tag)
+		return
+	}
+	internal := msg
+	if alg == bls.MessageAugmentation {
+		internal = slices.Concat(res.PK.Bytes(), msg)
+	}
+	hm, err := sigGroup.HashWithDst(dst, internal)
+	if err != nil {
+		o.Violation(c01Prop, "bls-hash-to-curve "+classify(err)+" "+tag)
+		return
+	}
+	hpS, popS := "-", "-"
+	if alg == bls.POP {
+		if res.Sig.Pop() == nil {
+			o.Violation(c01Prop, "pop-missing "+tag)
+			return
+		}
+		hp, err := sigGroup.HashWithDst(scheme.CipherSuite().GetPopDst(kit.variant), res.PK.Bytes())
+		if err != nil {
+			o.Violation(c01Prop, "bls-hash-to-curve-pop "+classify(err)+" "+tag)
+			return
+		}
+		hpS, popS = kit.sigStr(hp), kit.sigStr(res.Sig.Pop().Value())
+	}
+	o.Emit(c01Prop, fmt.Sprintf("bls %s %s %s %s %s %s %s %s %s", kit.keyCurve, kit.sigCurve, algName, scalarHex(sec.Value()), pointStr(res.PK), kit.sigStr(hm), kit.sigStr(res.Sig.Value()), hpS, popS), "ok")
+	c01AddConv(o, g.name, key.ac, key.shards[q[0]], q)
 }
+
+// ---------------------------------------------------------------------------------------------
+// the plan
+
+var (
+	c01DimFamily  = c01Dim{"family", accessFamilies}
+	c01DimKeygen  = c01Dim{"keygen", []string{"dealer", "gennaro", "canetti"}}
+	c01DimQuorum  = c01Dim{"quorum", []string{"min", "all", "rand"}}
+	c01DimAPI     = c01Dim{"api", []string{"rounds", "runner"}}
+	c01DimSession = c01Dim{"session", []string{"trusted", "real"}}
+	c01DimNIC     = c01Dim{"nic", []string{"fiatshamir", "fischlin", "randfischlin"}}
+	c01DimHash    = c01Dim{"hash", []string{"sha256", "sha512", "sha3-256", "blake2b-256"}}
+
+	c01DimsLindell22 = []c01Dim{c01DimFamily,
+		{"variant", []string{"bip340", "mina", "vanilla+be", "vanilla+le", "vanilla-be", "vanilla-le"}},
+		c01DimAPI, c01DimNIC, c01DimKeygen, c01DimQuorum, c01DimSession}
+	c01DimsVanilla = []c01Dim{c01DimFamily,
+		{"response", []string{"+be", "+le", "-be", "-le"}},
+		{"curve", []string{"k256", "p256", "ed25519", "pallas"}},
+		c01DimHash,
+		{"negate-nonce", []string{"nil", "parity"}},
+		c01DimAPI, c01DimKeygen, c01DimQuorum}
+	c01DimsDKLs23 = []c01Dim{c01DimFamily,
+		{"multiplier", []string{"softspoken", "bbot"}},
+		c01DimAPI,
+		{"curve", []string{"k256", "p256"}},
+		c01DimHash, c01DimKeygen, c01DimQuorum, c01DimSession}
+	c01DimsBoldyreva = []c01Dim{c01DimFamily,
+		{"keysize", []string{"short", "long"}},
+		{"rogue-key", []string{"basic", "aug", "pop"}},
+		c01DimKeygen, c01DimQuorum}
+)
 
 func runC01(c *Ctx) {
 	type job = func(*jobOut)
 	var jobs []job
-	r := NewRng(c.Seed, 1000)
 	stream := uint64(1)
-	keygens := []string{"dealer", "gennaro", "canetti"}
-	mkParams := func(fam string, nMin, nMax int) c01Params {
-		n := nMin + r.IntN(nMax-nMin+1)
-		if (fam == "bool" || fam == "hier") && n < 3 {
-			n = 3
+	seed := c.Seed
+	quick := !c.Thorough()
+	timing := os.Getenv("VERIF_C01_TIMING") != ""
+	only := os.Getenv("VERIF_C01_ONLY") // diagnostics: run one group of jobs (stream numbers are unchanged)
+	group := ""
+	add := func(f func(o *jobOut, s uint64)) {
+		s := stream
+		stream++
+		if only != "" && only != group {
+			return
 		}
-		return c01Params{keygen: keygens[r.IntN(3)], spec: genSpec(r, fam, n, !c.Thorough()), qmode: r.IntN(3), runner: r.IntN(3) == 0, realSession: r.IntN(3) == 0}
+		jobs = append(jobs, func(o *jobOut) {
+			t0 := time.Now()
+			f(o, s)
+			if timing { // diagnostics on stderr only: never part of the stream
+				first := ""
+				if len(o.lines) > 0 {
+					first = o.lines[0]
+					if len(first) > 60 {
+						first = first[:60]
+					}
+				}
+				fmt.Fprintf(os.Stderr, "c01 job %d: %.1fs %s\n", s, time.Since(t0).Seconds(), first)
+			}
+		})
 	}
-	k := c03Group[*k256Point, *k256Base, *k256Scalar]{"k256", cK256}
-	p2 := c03Group[*p256Point, *p256Base, *p256Scalar]{"p256", cP256}
-	ed := c03Group[*edPoint, *edBase, *edScalar]{"ed25519", cEd25519}
+	netTimeout = 5 * time.Minute // many concurrent runs on a shared machine: a slow run is not a hang
+	totals := map[string]int{}
+	rows := func(array string, dims []c01Dim, rngStream uint64, reps int) []c01Row {
+		var out []c01Row
+		for rep := range reps {
+			for _, idx := range c01Cover(NewRng(seed, rngStream+uint64(rep)*977), dims) {
+				out = append(out, c01Row{array, dims, idx})
+			}
+		}
+		totals[array] = c01PairsTotal(dims)
+		return out
+	}
 	reps := 1
 	if c.Thorough() {
-		reps = 4
+		reps = 3
 	}
-	for range reps {
-		// DKLs23 softspoken: every family, k256 (+ p256)
-		for _, fam := range accessFamilies {
-			p, s := mkParams(fam, 2, 4), stream
-			jobs = append(jobs, func(o *jobOut) { c01ECDSA(o, c.Seed, s, k, cK256, "softspoken", "sha256", p) })
-			stream++
-		}
-		{
-			p, s := mkParams("th", 2, 3), stream
-			jobs = append(jobs, func(o *jobOut) { c01ECDSA(o, c.Seed, s, p2, cP256, "softspoken", "sha512", p) })
-			stream++
-		}
-		// DKLs23 bbot (slow): two-party quorums
-		for _, fam := range []string{"th", "cnf"} {
-			p, s := mkParams(fam, 2, 3), stream
-			p.qmode = 0
-			jobs = append(jobs, func(o *jobOut) { c01ECDSA(o, c.Seed, s, k, cK256, "bbot", "sha256", p) })
-			stream++
-		}
-		// Lindell22 vanilla (k256, ed25519) and BIP-340: every family
-		for _, fam := range accessFamilies {
-			p, s := mkParams(fam, 2, 5), stream
-			jobs = append(jobs, func(o *jobOut) { c01SchnorrVanilla(o, c.Seed, s, k, p) })
-			stream++
-			pb, sb := mkParams(fam, 2, 5), stream
-			jobs = append(jobs, func(o *jobOut) { c01SchnorrBIP340(o, c.Seed, sb, pb) })
-			stream++
-		}
-		// explicitly non-ideal MSPs: a holder that owns several rows and signs
-		for i := range 2 {
-			ids := genIDs(r, 3, 0)
-			p, s := mkParams("th", 3, 3), stream
-			p.spec = fmt.Sprintf("bool:or(and(%d,%d),and(%d,%d))", ids[0], ids[1], ids[0], ids[2])
-			p.qmode = 1 + i // all holders / random non-minimal: the repeated holder is in the quorum
-			if i == 0 {
-				jobs = append(jobs, func(o *jobOut) { c01SchnorrVanilla(o, c.Seed, s, k, p) })
+	pick := NewRng(seed, 1001)
+	k256g := c03Group[*k256Point, *k256Base, *k256Scalar]{"k256", cK256}
+	p256g := c03Group[*p256Point, *p256Base, *p256Scalar]{"p256", cP256}
+	dkls := func(row c01Row, mult string, nMax int) {
+		p := c01CommonParams(row, 2, nMax, quick)
+		curve, hname := row.get("curve"), row.get("hash")
+		add(func(o *jobOut, s uint64) {
+			if curve == "k256" {
+				c01ECDSA(o, seed, s, k256g, cK256, mult, hname, p)
 			} else {
-				jobs = append(jobs, func(o *jobOut) { c01ECDSA(o, c.Seed, s, k, cK256, "softspoken", "sha256", p) })
+				c01ECDSA(o, seed, s, p256g, cP256, mult, hname, p)
 			}
-			stream++
+		})
+	}
+
+	// Lindell17 first: its Paillier key generation overlaps with everything else
+	group = "lindell17"
+	add(func(o *jobOut, s uint64) { c01Lindell17(o, seed, s) })
+
+	// DKLs23 (the expensive runs next, so that the cheap ones fill the tail).
+	// thorough: one pairwise array over everything including the multiplier.
+	// quick: the bbot multiplier costs ≈ 10 CPU-seconds per pair of parties, so the pairwise array is
+	// built for softspoken only and bbot gets two runs per seed on two-party quorums whose families
+	// rotate with the seed (seeds 1..3 meet all five families), the other options drawn at random.
+	group = "dkls23"
+	if c.Thorough() {
+		for _, row := range rows("dkls23", c01DimsDKLs23, 1100, 1) {
+			mult := row.get("multiplier")
+			nMax := 5
+			if mult == "bbot" { // ≈ 10 CPU-seconds per pair of parties
+				nMax = 3
+			}
+			dkls(row, mult, nMax)
 		}
-		for _, fam := range []string{"th", "bool", "cnf"} {
-			p, s := mkParams(fam, 2, 4), stream
-			jobs = append(jobs, func(o *jobOut) { c01SchnorrVanilla(o, c.Seed, s, ed, p) })
-			stream++
+		sdims := append([]c01Dim{c01DimFamily}, c01DimsDKLs23[2:]...) // two further arrays for softspoken
+		for _, row := range rows("dkls23-softspoken", sdims, 1150, 2) {
+			dkls(row, "softspoken", 5)
 		}
-		// Boldyreva: short and long keys, the rogue-key modes
-		for i, fam := range []string{"th", "cnf", "hier", "bool"} {
-			p, s := mkParams(fam, 2, 4), stream
-			alg := []bls.RogueKeyPreventionAlgorithm{bls.Basic, bls.MessageAugmentation, bls.POP}[i%3]
-			long := i%2 == 1
-			jobs = append(jobs, func(o *jobOut) { c01BLS(o, c.Seed, s, long, alg, p) })
-			stream++
+	} else {
+		// (softspoken quick array: holders ≤ 3, so "rand" quorums coincide with "all": two quorum kinds)
+		// hash and key generation do not interact with the multiplication protocol: drawn at random here
+		// (the digest path is covered per hash by the Lindell22 arrays and by C15, key generation by C03)
+		dims := []c01Dim{c01DimFamily, c01DimAPI, {"curve", []string{"k256", "p256"}}, {"quorum", []string{"min", "all"}}, c01DimSession}
+		for _, row := range rows("dkls23-softspoken", dims, 1100, 1) {
+			full := c01Row{row.array, append(slices.Clone(dims), c01DimHash, c01DimKeygen), append(slices.Clone(row.idx), pick.IntN(4), pick.IntN(3))}
+			totals[row.array] = c01PairsTotal(full.dims)
+			dkls(full, "softspoken", 3)
+		}
+		bdims := append([]c01Dim{c01DimFamily}, c01DimsDKLs23[2:]...) // everything but the multiplier
+		for i := range 2 {
+			idx := make([]int, len(bdims))
+			for d := range bdims {
+				idx[d] = pick.IntN(len(bdims[d].vals))
+			}
+			idx[0] = (2*int(seed%5+5) + i) % 5
+			row := c01Row{"", bdims, idx}
+			p := c01CommonParams(row, 2, 3, quick)
+			p.qmode = "min"
+			if p.family == "th" || p.family == "un" || p.family == "cnf" {
+				p.nMax = 2
+			}
+			curve, hname := row.get("curve"), row.get("hash")
+			o2 := fmt.Sprintf("opt.dkls23-bbot.family=%s", p.family)
+			add(func(o *jobOut, s uint64) {
+				before := len(o.stats)
+				if curve == "k256" {
+					c01ECDSA(o, seed, s, k256g, cK256, "bbot", hname, p)
+				} else {
+					c01ECDSA(o, seed, s, p256g, cP256, "bbot", hname, p)
+				}
+				if len(o.stats) > before {
+					o.Count(o2)
+				}
+			})
 		}
 	}
-	runJobs(c, 12, jobs)
+
+	// Boldyreva
+	group = "boldyreva"
+	nMaxB := 3
+	if c.Thorough() {
+		nMaxB = 5
+	}
+	for _, row := range rows("boldyreva", c01DimsBoldyreva, 1200, reps) {
+		p := c01CommonParams(row, 2, nMaxB, quick)
+		long, alg := row.get("keysize") == "long", row.get("rogue-key")
+		add(func(o *jobOut, s uint64) {
+			if long {
+				c01BLS(o, seed, s, c01BLSLongKit(), alg, p)
+			} else {
+				c01BLS(o, seed, s, c01BLSShortKit(), alg, p)
+			}
+		})
+	}
+
+	// Lindell22: all flavours
+	group = "lindell22"
+	nMaxL := 4
+	if c.Thorough() {
+		nMaxL = 6
+	}
+	for _, row := range rows("lindell22", c01DimsLindell22, 1300, reps) {
+		p := c01CommonParams(row, 2, nMaxL, quick)
+		variant, nic := row.get("variant"), row.get("nic")
+		curve := []string{"k256", "p256", "ed25519", "pallas"}[pick.IntN(4)]
+		hname := c01DimHash.vals[pick.IntN(4)]
+		parity := pick.IntN(2) == 0
+		add(func(o *jobOut, s uint64) {
+			switch variant {
+			case "bip340":
+				c01BIP340(o, seed, s, nic, p)
+			case "mina":
+				c01Mina(o, seed, s, nic, p)
+			default:
+				c01VanillaOn(o, seed, s, curve, hname, variant[7] == '-', variant[8:] == "le", parity, nic, p)
+			}
+		})
+	}
+	// Lindell22: the remaining arguments of the configurable Schnorr constructor
+	group = "vanilla"
+	for _, row := range rows("vanilla", c01DimsVanilla, 1400, reps) {
+		p := c01CommonParams(row, 2, nMaxL, quick)
+		p.realSession = pick.IntN(3) == 0
+		resp, curve, hname, parity := row.get("response"), row.get("curve"), row.get("hash"), row.get("negate-nonce") == "parity"
+		nic := c01DimNIC.vals[pick.IntN(3)]
+		add(func(o *jobOut, s uint64) {
+			c01VanillaOn(o, seed, s, curve, hname, resp[0] == '-', resp[1:] == "le", parity, nic, p)
+		})
+	}
+
+	// explicitly non-ideal MSPs, with quorums in which one holder MUST contribute several of its rows:
+	//   cnf:a|b|c (2-of-3 in CNF form: three pieces, any two holders) with a two-party quorum;
+	//   and(or(a,b),or(a,c),d) with the quorum {a,d}: a answers both OR gates;
+	//   or(and(a,b),and(a,c)) with all holders (a owns two rows, either may be used).
+	group = "non-ideal"
+	nNonIdeal := 6
+	if c.Thorough() {
+		nNonIdeal = 18
+	}
+	for i := range nNonIdeal {
+		p := c01Params{family: "bool", keygen: c01DimKeygen.vals[pick.IntN(3)], nMin: 3, nMax: 3, quick: quick,
+			qmode: "all", runner: i%4 == 3, realSession: i%2 == 1}
+		switch i % 3 {
+		case 0:
+			ids := genIDs(pick, 3, 0)
+			p.family, p.spec, p.qmode = "cnf", fmt.Sprintf("cnf:%d|%d|%d", ids[0], ids[1], ids[2]), "min"
+		case 1:
+			ids := genIDs(pick, 4, 0)
+			p.spec = fmt.Sprintf("bool:and(or(%d,%d),or(%d,%d),%d)", ids[0], ids[1], ids[0], ids[2], ids[3])
+			p.fixedQuorum, p.qmode = []ID{ids[0], ids[3]}, "min"
+		default:
+			ids := genIDs(pick, 3, 0)
+			p.spec = fmt.Sprintf("bool:or(and(%d,%d),and(%d,%d))", ids[0], ids[1], ids[0], ids[2])
+		}
+		neg := pick.IntN(2) == 0
+		switch i % 4 {
+		case 0:
+			add(func(o *jobOut, s uint64) {
+				c01VanillaOn(o, seed, s, "k256", "sha256", neg, false, false, "fiatshamir", p)
+			})
+		case 1:
+			add(func(o *jobOut, s uint64) { c01ECDSA(o, seed, s, k256g, cK256, "softspoken", "sha256", p) })
+		case 2:
+			add(func(o *jobOut, s uint64) { c01BIP340(o, seed, s, "fiatshamir", p) })
+		default:
+			add(func(o *jobOut, s uint64) { c01BLS(o, seed, s, c01BLSShortKit(), "pop", p) })
+		}
+	}
+	// thorough: every qualified quorum (≥ 2 members) of one 4-holder structure per family
+	if c.Thorough() {
+		group = "all-quorums"
+		for _, fam := range accessFamilies {
+			spec := genSpec(pick, fam, 4, false)
+			for cnfPowerlessHolder(spec) {
+				spec = genSpec(pick, fam, 4, false)
+			}
+			ac, err := parseAccess(spec)
+			if err != nil {
+				continue
+			}
+			qs, _ := qualifiedSets(ac)
+			for k, q := range qs {
+				if len(q) < 2 {
+					continue
+				}
+				p := c01Params{family: fam, keygen: c01DimKeygen.vals[k%3], nMin: 4, nMax: 4, spec: spec, fixedQuorum: q, qmode: "rand", runner: k%2 == 1}
+				neg := k%2 == 0
+				switch k % 3 {
+				case 0:
+					add(func(o *jobOut, s uint64) { c01BIP340(o, seed, s, "fiatshamir", p) })
+				case 1:
+					add(func(o *jobOut, s uint64) {
+						c01VanillaOn(o, seed, s, "ed25519", "sha512", neg, false, false, "fiatshamir", p)
+					})
+				default:
+					add(func(o *jobOut, s uint64) { c01BLS(o, seed, s, c01BLSShortKit(), "basic", p) })
+				}
+				if len(q) <= 3 && k%4 == 0 {
+					add(func(o *jobOut, s uint64) { c01ECDSA(o, seed, s, k256g, cK256, "softspoken", "sha256", p) })
+				}
+			}
+		}
+	}
+	par := 12
+	if v, err := strconv.Atoi(os.Getenv("VERIF_C01_PAR")); err == nil && v > 0 { // diagnostics
+		par = v
+	}
+	runJobs(c, par, jobs)
+	c01CollapsePairs(c, totals)
 }
